@@ -295,6 +295,7 @@ def main():
     ap.add_argument('--keep', action='store_true')
     ap.add_argument('--list', action='store_true')
     ap.add_argument('-v', action='store_true')
+    ap.add_argument('--debug', action='store_true', help='only list failing obligations')
     a = ap.parse_args()
     seed = int(os.environ.get('VERIF_SEED', '0') or 0)
     if a.replay:
@@ -339,6 +340,14 @@ def main():
             for f in futs:
                 results.append(f.result())
         import verdict
+        if a.debug:
+            for r in results:
+                if r['infra']:
+                    print('INFRA', r['group'], r['infra'][:600])
+                for o in r['obligations']:
+                    if o['status'] != 'SUCCESS' and 'VACUITY' not in o['tags']:
+                        print('FAIL', r['group'], o['name'], o['tags'], o['description'][:110], 'line', o['line'])
+            return 0
         rc = verdict.conclude(prop, a.tier, seed, comps, metas, results, infra, t_start, verbose=a.v)
     finally:
         if not a.keep:
